@@ -1,0 +1,21 @@
+//go:build verif
+
+package mutator
+
+import (
+	"io"
+
+	"github.com/ngicks/mockable"
+)
+
+// VerifSetClock swaps the package clock and returns the previous one. Verification builds only.
+func VerifSetClock(c mockable.Clock) (prev mockable.Clock) {
+	prev, clock = clock, c
+	return prev
+}
+
+// VerifSetRandomReader swaps the random source and returns the previous one. Verification builds only.
+func VerifSetRandomReader(r io.Reader) (prev io.Reader) {
+	prev, randomReader = randomReader, r
+	return prev
+}
